@@ -803,6 +803,8 @@ def adapter_cases():
 
 
 def correspond(ctx):
+    from tools.harness import synonyms
+    synonyms.check(ctx, {"setParseAction", "addParseAction", "addCondition", "setFailAction", "canParseNext", "tryParse"}, 'actions')
     import pyparsing as pp
     singles, pairs, triples = _histories(ctx)
     model_ok = not any(t.startswith(("translator:", "proof:")) for t in ctx.tie_broken)
